@@ -56,6 +56,8 @@ type c02Setup struct {
 	Envs      []map[string]interface{} `json:"envs"`
 	Resolvers []resolverTable        `json:"resolvers"`
 	MaxIdx    int64                  `json:"maxidx,omitempty"` // 0: the default (1024)
+	NumKeys   bool                   `json:"numkeys,omitempty"`
+	Escape    bool                   `json:"escape,omitempty"`
 }
 
 func (s c02Setup) build() (*ucfg.Config, []ucfg.Option, string, bool) {
@@ -64,6 +66,12 @@ func (s c02Setup) build() (*ucfg.Config, []ucfg.Option, string, bool) {
 	if s.MaxIdx != 0 {
 		mx = s.MaxIdx
 		base = append(base, ucfg.MaxIdx(mx))
+	}
+	if s.NumKeys {
+		base = append(base, ucfg.EnableNumKeys(true))
+	}
+	if s.Escape {
+		base = append(base, ucfg.EscapePath())
 	}
 	var root *ucfg.Config
 	var err error
@@ -95,13 +103,13 @@ func (s c02Setup) build() (*ucfg.Config, []ucfg.Option, string, bool) {
 		opts = append(opts, ucfg.Resolve(t.fn()))
 		res = append(res, t.coq())
 	}
-	no := normOpts{Sep: ".", VarExp: true, MaxIdx: s.MaxIdx}
+	no := normOpts{Sep: ".", VarExp: true, MaxIdx: s.MaxIdx, NumKeys: s.NumKeys, Escape: s.Escape}
 	var ft []string
 	for _, f := range []float64{0.5, -1.25, 3, 1e10, 1000, 1, 7, 0.1, -3} {
 		ft = append(ft, fmt.Sprintf("(%s, %s)", coqZu(mathFloat64bits(f)), coqStr(fmt.Sprintf("%v", f))))
 	}
-	coq := fmt.Sprintf("{| eo_p := {| p_sep := \".\"; p_maxIdx := %d; p_numKeys := false; p_escape := false |}; eo_envs := %s; eo_res := %s; eo_noparse := false; eo_nocomma := false; eo_n := %s; eo_ftext := %s |}",
-		mx, coqList(envs), coqList(res), no.coq(), coqList(ft))
+	coq := fmt.Sprintf("{| eo_p := {| p_sep := \".\"; p_maxIdx := %d; p_numKeys := %s; p_escape := %s |}; eo_envs := %s; eo_res := %s; eo_noparse := false; eo_nocomma := false; eo_n := %s; eo_ftext := %s |}",
+		mx, coqBool(s.NumKeys), coqBool(s.Escape), coqList(envs), coqList(res), no.coq(), coqList(ft))
 	return root, opts, coq, true
 }
 
@@ -113,6 +121,12 @@ func encSetup(s c02Setup) interface{} {
 	out := map[string]interface{}{"root": encTree(s.Root), "envs": envs, "resolvers": s.Resolvers}
 	if s.MaxIdx != 0 {
 		out["maxidx"] = s.MaxIdx
+	}
+	if s.NumKeys {
+		out["numkeys"] = true
+	}
+	if s.Escape {
+		out["escape"] = true
 	}
 	return out
 }
